@@ -134,7 +134,7 @@ namespace riddle
     RIDDLE_EXPORT token *next();
 
   private:
-    static bool is_id_part(const char &ch) noexcept { return ch == '_' || (ch >= 'a' && ch <= 'z') || (ch >= 'A' && ch <= 'Z') || (ch >= '0' && ch <= '9'); }
+    static bool is_id_part(const int &ch) noexcept { return ch == '_' || (ch >= 'a' && ch <= 'z') || (ch >= 'A' && ch <= 'Z') || (ch >= '0' && ch <= '9'); }
 
     token *mk_token(const symbol &sym) noexcept
     {
@@ -205,12 +205,12 @@ namespace riddle
     token *finish_id(std::string &str) noexcept;
 
     void error(const std::string &err);
-    char next_char() noexcept;
+    int next_char() noexcept;
 
   private:
     std::string sb;
     size_t pos = 0;
-    char ch;
+    int ch; // the current character (as an unsigned char), or -1 at the end of the input..
     size_t start_line = 0;
     size_t start_pos = 0;
     size_t end_line = 0;
